@@ -467,7 +467,7 @@ PROPS['C18'] = {
                  'Suiron.C18.C18_query', 'Suiron.C18.C18_goal', 'Suiron.C18.C18_rule',
                  'Suiron.C18.parse_term_terminates', 'Suiron.C18.parse_arguments_terminates', 'Suiron.C18.parse_linked_list_terminates',
                  'Suiron.C18.parse_complex_terminates', 'Suiron.C18.parse_function_terminates', 'Suiron.C18.parse_query_terminates',
-                 'Suiron.C18.parse_subgoal_terminates', 'Suiron.C18.tokenize_terminates', 'Suiron.C18.group_tokens_terminates',
+                 'Suiron.C18.parse_subgoal_terminates', 'Suiron.C18.tokenize_terminates', 'Suiron.C18.group_tokens_terminates', 'Suiron.C18.group_tokens_linear_work',
                  'Suiron.C18.generate_goal_terminates', 'Suiron.C18.parse_rule_terminates', 'Suiron.C18.parse_rule_outcome_unique',
                  'Suiron.C18.parse_term_outcome_unique'],
     'oracles': ['C18'],
@@ -515,14 +515,16 @@ PROPS['C20'] = {
         'quick': parse_runs('C20', [('contexts', 6000, None), ('contexts', 6000, None), ('mutate', 3000, None), ('ctxstrings', 4, 2)]),
         'thorough': parse_runs('C20', [('contexts', 200000, None) for i in range(6)] + [('mutate', 100000, None), ('ctxstrings', 5, 8)]),
     },
-    'rule': "contexts stream: a term text (random canonical term of depth <= 2, or one of 60 special spellings: signed numbers, digit strings with blanks inside, signs "
-            "alone, `1e5`, `3.`, `.5`, i64 extremes, odd variable names, escaped commas, quoted numbers, arithmetic infix) is parsed alone, as `f(T)`, as `[T]`, as `T = x` "
-            "and as the query `q(T)`; compared with the model: the five results (ids erased). " + P_RULE,
+    'rule': "contexts stream: a term text (random canonical term of depth <= 2, one of 100 special spellings, or - ctxstrings - EVERY string up to length 4 / 5 over the 12 characters `a 1 . - \" \\ ( ) [ ] blank $`; spellings: signed numbers, digit strings with blanks inside, signs "
+            "alone, `1e5`, `3.`, `.5`, i64 extremes, odd variable names, escaped commas and other escapes, quoted numbers, quoted texts with parentheses, digits next to brackets, stray quotes, arithmetic infix) is parsed alone, as `f(T)`, "
+            "as `[T]`, as `T = x`, as the query `q(T)`, after a float, among other arguments and after a float in a list; compared with the model: the eight results (ids erased). " + P_RULE,
     'design_ref': '5.20',
     'assumptions': ["PARTIAL: proved for token texts (no blanks, none of `[ ] ( ) , \" \\ |`): all five contexts give parse_term's result; structured texts are decided by "
                     "the contexts stream",
-                    "oracle on the implementation: the five results are equal whenever the text is a single term (no top-level comma / bar)",
-                    "KNOWN FINDING F3 (open): a text with a top-level arithmetic infix is a function term alone, in a list and next to `=`, but an atom or a variable as an argument"],
+                    "oracle on the implementation: the eight results are equal whenever the text is a single embeddable term text: no unescaped top-level comma / bar, parentheses, "
+                    "brackets and quotes closed (quotes pairing at every depth), not ending in an escape",
+                    "KNOWN FINDING F3 (open): a text with a top-level arithmetic infix is a function term alone, in a list and next to `=`, but an atom or a variable as an argument",
+                    "KNOWN FINDING F4 (open): a backslash inside the parentheses, brackets or quotes of a text, directly before its closing quote, or an escaped backslash, is read differently in some contexts"],
 }
 PROPS['C21'] = {
     'module': 'SuironVerif.Props.C21',
@@ -557,7 +559,7 @@ LEVEL_TEXT = {
            'parse_complex, parse_function, parse_query, parse_subgoal, generate_goal, parse_rule) reaches a panic branch of the model (each index, slice, unwrap and panic! '
            'of the Rust code is one), including the token grouping stage (tokenizer output shape -> group_tokens -> group_and_tokens / group_or_tokens -> token_tree_to_goal), '
            'and none fails to return (3|s|+3 units of fuel for parse_term, 3|s|+4 for parse_subgoal, some fuel for generate_goal / parse_rule; parsers are monotone in the '
-           'fuel, so the outcome does not depend on it): C18_term ... C18_rule. The fuel bounds recursion depth, not work: polynomial time is decided by timed deep-nesting '
+           'fuel, so the outcome does not depend on it): C18_term ... C18_rule. The fuel bounds recursion depth, not work: for group_tokens the work is proved linear (at most 6n+1 calls on n tokens), elsewhere polynomial time is decided by timed deep-nesting '
            'cases; the work on termination exposed defect D18 (exponential time on nested parentheses), repaired. The model is tied to the code by the correspondence '
            'suite (random, mutated, documented-spelling and ALL short strings through all eight entry points) and the no-panic oracle.',
     'C19': 'PARTIAL proof: the printer model is proved to parenthesise exactly the nested operators the parser would regroup and to lay out rules and unifications as '
